@@ -71,7 +71,16 @@ func newDataReader(c *Conn) *dataReader {
 func (r *dataReader) Read(b []byte) (n int, err error) {
 	if r.limited {
 		if r.n <= 0 {
-			return 0, ErrDataTooLarge
+			// The limit is used up: the message is still complete if the only
+			// thing that follows is the end-of-data marker.
+			var scratch [1]byte
+			r.limited = false
+			n, err = r.Read(scratch[:])
+			r.limited = true
+			if n > 0 {
+				return 0, ErrDataTooLarge
+			}
+			return 0, err
 		}
 		if int64(len(b)) > r.n {
 			b = b[0:r.n]
